@@ -17,9 +17,29 @@ from checks import enet, solver, c05
 from tools import gama, netgen
 
 
-def plant(rng, dim):
+def plant(rng, dim, force=None, force_ang=None):
     """returns (net, truth, meta, expectation) ; expectation in {'adjust', 'refuse', 'either'}"""
-    kind = rng.choice(["few-constraints", "non-spanning", "disconnected-free-part", "single-element", "no-datum", "sufficient", "collinear-datum"])
+    kind = force or rng.choice(["few-constraints", "non-spanning", "disconnected-free-part", "single-element", "no-datum", "sufficient", "collinear-datum"] +
+                      (["point-on-line", "point-on-line"] if dim == 2 else []))
+    if kind == "point-on-line":
+        # a point a centimetre off the line between two fixed points, tied by the two distances only: practically
+        # undetermined across the line (standard deviation far beyond 10 m) - must be reported as indeterminable
+        net, truth, meta = netgen.make_network(rng, dim=2, n=rng.randint(4, 5), n_fixed=2, datum="fixed")
+        ids = [p["id"] for p in net["points"]]
+        A, B = truth[ids[0]], truth[ids[1]]
+        ang = force_ang if force_ang is not None else rng.choice([0.0, math.pi / 2, rng.uniform(0, math.pi)])
+        # place two NEW fixed points so that the line has the chosen direction
+        F1 = (3000.0, 5000.0, 0.0)
+        F2 = (3000.0 + 200.0 * math.cos(ang), 5000.0 + 200.0 * math.sin(ang), 0.0)
+        G = (3000.0 + 100.0 * math.cos(ang) - 0.01 * math.sin(ang), 5000.0 + 100.0 * math.sin(ang) + 0.01 * math.cos(ang), 0.0)
+        truth.update({"F1": F1, "F2": F2, "G": G})
+        net["points"] += [{"id": "F1", "x": F1[0], "y": F1[1], "fix": "xy"}, {"id": "F2", "x": F2[0], "y": F2[1], "fix": "xy"}, {"id": "G", "x": G[0], "y": G[1], "adj": "xy"}]
+        for f in ("F1", "F2"):
+            ob = {"t": "distance", "to": "G", "stdev": 5.0}
+            ob["val"] = netgen.obs_value(ob, truth, 0.0, f)
+            net["clusters"].append({"kind": "obs", "from": f, "obs": [ob]})
+        meta["planted"] = kind
+        return net, truth, meta, "either"
     n = rng.randint(4, 6)
     if kind in ("few-constraints", "non-spanning", "sufficient", "collinear-datum", "no-datum"):
         net, truth, meta = netgen.make_network(rng, dim=dim, n=n, n_fixed=n, datum="free")
@@ -147,7 +167,11 @@ def run(ctx):
     bad = 0
     for t in range(n):
         dim = rng.choice([1, 2, 2, 3])
-        net, truth, meta, exp = plant(rng, dim)
+        if t < 3:
+            dim = 2
+            net, truth, meta, exp = plant(rng, 2, force="point-on-line", force_ang=[0.0, math.pi / 2, 0.7][t])
+        else:
+            net, truth, meta, exp = plant(rng, dim)
         outs, txt = enet.run_all(ctx, bdir, net, "c20_%d" % t, outputs=("xml", "text"))
         ctx.count(("c20", txt), nontrivial=True)
         ctx.hist("planted", meta["planted"]); ctx.hist("dim", dim)
@@ -199,6 +223,23 @@ def run(ctx):
                           "a network whose datum is sufficient (%s) was refused" % meta["planted"]); bad += 1
             continue
         if adjusted:
+            # nothing that is reported as adjusted may be practically undetermined (gama's own limit: 10 m)
+            huge = None
+            for a in enet.ALGS:
+                r_ = outs[a]["res"]
+                if r_["cov"]:
+                    k_ = 0
+                    for p_ in r_["adjusted"]:
+                        for c_ in "xyz":
+                            if c_ in p_:
+                                v_ = gama.cov_entry(r_, k_, k_)
+                                if v_ is not None and v_ > 1e8 * 1.0001:
+                                    huge = (a, p_["id"], c_, math.sqrt(v_))
+                                k_ += 1
+            if huge:
+                ctx.violation({"kind": "E:ill-posed", "gkf": txt, "planted": meta["planted"], "algorithm": huge[0], "point": huge[1], "coordinate": huge[2], "stdev_mm": huge[3]},
+                              "%s reports coordinate %s of point %s as adjusted with a standard deviation of %.0f mm instead of diagnosing it as indeterminable" % (huge[0], huge[2], huge[1], huge[3])); bad += 1
+                continue
             ref = outs["gso"]["res"]
             for a in enet.ALGS[0:1] + enet.ALGS[2:]:
                 dd = enet.compare_results(ref, outs[a]["res"])
